@@ -299,6 +299,9 @@ func checkC13(c *Ctx) {
 		}
 	}
 	c.orderRule(p, "C13.cofactor", "cofactor clearing precedes the multiplication", p.Func("ecc/fourq", "Point", "ScalarMult"), "call of pointR1.ClearCofactor", call("(ecc/fourq.pointR1).ClearCofactor"), "call of pointR1.ScalarMult", call("(ecc/fourq.pointR1).ScalarMult"))
+	// ... exactly once: k·(392·Q), not 392·k·(392·Q) (clearing is not idempotent)
+	c.reachCountRule(p, "C13.cofactor", "the variable-base multiplication clears the cofactor exactly once", p.Func("ecc/fourq", "Point", "ScalarMult"),
+		map[string]int{"(*ecc/fourq.pointR1).ClearCofactor": 1})
 	// ... and the fixed-base multiplication does not: k·G for the generator, not 392·k·G
 	c.reachCountRule(p, "C13.cofactor", "the fixed-base multiplication returns k·G (no cofactor clearing on the way)", p.Func("ecc/fourq", "Point", "ScalarBaseMult"),
 		map[string]int{"(*ecc/fourq.pointR1).ClearCofactor": 0})
